@@ -146,7 +146,11 @@ def _driver_cls():
                 while self._q and self.crashed is None:
                     e = self._q.popleft()
                     try:
-                        cmds = list(self.layer.handle_event(e))
+                        # like server.py's server_event: every command is executed as soon as it is yielded, so
+                        # connection-state changes are visible to the code after the yield and commands that
+                        # precede an escaping exception have been executed
+                        for c in self.layer.handle_event(e):
+                            self._execute(c)
                     except Exception as exc:
                         tb = traceback.extract_tb(exc.__traceback__)
                         names = [f.name for f in tb if "layers/http" in f.filename]
@@ -154,8 +158,6 @@ def _driver_cls():
                         self.crashed = (type(exc).__name__, str(exc)[:200])
                         self.trace.append(("crash", type(exc).__name__))
                         break
-                    for c in cmds:
-                        self._execute(c)
             finally:
                 self._busy = False
     _DRV.append(Drv)
